@@ -103,5 +103,70 @@ Example escape_example :
   ∧ unescape [37; 122; 122] = None ∧ unescape [116; 37] = None.
 Proof. vm_compute. repeat split. Qed.
 
+(** [url.ParseQuery] as modelled before percent-decoding was added. *)
+Definition parse_query_plain (q : str) : list (str * str) :=
+  omap (λ p, match p with
+             | [] => None
+             | _ => let '(k, v) := cut 61 p in Some (k, default [] v)
+             end) (split_on 38 q).
+
+Definition plain (s : str) : Prop := Forall (λ c, c ≠ 37 ∧ c ≠ 43 ∧ c ≠ 59) s.
+
+Lemma split_on_Forall (P : N → Prop) c s : Forall P s → Forall (Forall P) (split_on c s).
+Proof.
+  induction s as [|x s' IH]; intros H; cbn [split_on].
+  - repeat constructor.
+  - inversion H as [|? ? Hx Hs]; subst. specialize (IH Hs).
+    destruct (split_on c s') as [|h t]; [repeat constructor|].
+    inversion IH as [|? ? Hh Ht]; subst.
+    destruct (x =? c); repeat constructor; assumption.
+Qed.
+
+Lemma cut_Forall (P : N → Prop) c s :
+  Forall P s → Forall P (cut c s).1 ∧ (∀ b, (cut c s).2 = Some b → Forall P b).
+Proof.
+  induction s as [|x s' IH]; intros H; cbn [cut].
+  - split; [constructor|]. intros b Hb. discriminate.
+  - inversion H as [|? ? Hx Hs]; subst. specialize (IH Hs).
+    destruct (x =? c).
+    + split; [constructor|]. cbn. intros b Hb. injection Hb as <-. exact Hs.
+    + destruct (cut c s') as [a b']. cbn in *. destruct IH as [Ha Hb]. split; [constructor; assumption|exact Hb].
+Qed.
+
+Lemma plain_unescape s : plain s → unescape s = Some s.
+Proof.
+  induction s as [|c r IH]; intros H; [reflexivity|].
+  inversion H as [|? ? [H37 [H43 _]] Hr]; subst.
+  cbn [unescape].
+  destruct (c =? 37) eqn:E1; [lia|].
+  rewrite (IH Hr).
+  destruct (c =? 43) eqn:E2; [lia|reflexivity].
+Qed.
+
+Lemma plain_no_semicolon s : plain s → has_byte 59 s = false.
+Proof.
+  unfold has_byte. induction s as [|c r IH]; intros H; [reflexivity|].
+  inversion H as [|? ? [_ [_ H59]] Hr]; subst. cbn [existsb]. rewrite (IH Hr).
+  destruct (59 =? c) eqn:E; [lia|reflexivity].
+Qed.
+
+(** On option strings without '%', '+' and ';' the decoding parser is the plain one: the
+    theorems and correspondence runs of the earlier model are statements about this one. *)
+Theorem parse_query_plain_eq q : plain q → parse_query q = parse_query_plain q.
+Proof.
+  intros Hq. unfold parse_query, parse_query_plain.
+  pose proof (split_on_Forall _ 38 q Hq) as Hall.
+  induction Hall as [|p ps Hp Hps IH]; [reflexivity|].
+  cbn [omap list_omap]. rewrite IH.
+  destruct p as [|x p']; [reflexivity|].
+  rewrite (plain_no_semicolon _ Hp).
+  destruct (cut_Forall _ 61 (x :: p') Hp) as [Hk Hv].
+  destruct (cut 61 (x :: p')) as [k v]. cbn [fst snd] in *.
+  rewrite (plain_unescape k Hk).
+  destruct v as [v|]; simpl.
+  - change (unescape v) with (unescape v). pose proof (plain_unescape v (Hv v eq_refl)) as E. simpl in E. rewrite E. reflexivity.
+  - reflexivity.
+Qed.
+Print Assumptions parse_query_plain_eq.
 Print Assumptions unescape_escape.
 Print Assumptions unescape_plain.
